@@ -254,3 +254,10 @@ Proof.
               eq_refl eq_refl eq_refl (proj1 ex_synrule_object_backward_hyps)) as (A & _ & C).
   split; [exact A|]. split; [exact C|]. split; [reflexivity|]. apply explicit_h_no_pairs. apply invert_no_pairs.
 Qed.
+
+(** the implicit-template mode, total: backward quaternisation *)
+Example ex_implicit_total : nocrash ex_inp_bwd /\ run_ops ex_inp_bwd rs0 [Osmarts; Oits] = map (spec_val ex_inp_bwd) [Osmarts; Oits].
+Proof.
+  destruct ex_implicit_hyps as (_ & _ & _ & _ & H5 & H6 & H7 & H8 & _).
+  destruct (implicit_reactor_total true ex_inp_bwd ex_rc eq_refl eq_refl H5 H6 H7 H8) as (A & B & _). split; [exact A|exact (B _)].
+Qed.
